@@ -163,7 +163,7 @@ def run_threads(case):
     import websocket
 
     obs = Obs()
-    sched = simkit.Sched(choices=case.get("choices", []), preempt=case.get("preempt"), horizon=500.0, repo=REPO, max_steps=600000)
+    sched = simkit.Sched(choices=case.get("choices", []), preempt=case.get("preempt"), preempt_at=case.get("preempt_at"), horizon=500.0, repo=REPO, max_steps=600000)
     net = simkit.SimNet(sched)
     stream_specs = case.get("stream", [])
     wire_in, frames_in, ends_in = rx.wire_of(stream_specs) if stream_specs else (b"", [], [])
